@@ -413,10 +413,36 @@ def coverage_level1(ck, res):
             opk[o["t"]] = opk.get(o["t"], 0) + 1
         if nontrivial(c):
             distinct.add(case_key(c))
+    # the operation mreq: how often the request really met a swap in progress (it then waited for the service mutex and was served after
+    # the swap: the worker's swap is reported before the call), and what the two INSERTs around it were answered with
+    mid = {"mreq_operations": 0, "met_a_swap_in_progress": 0, "no_flush_in_progress (nothing waited, worker busy or stopped)": 0,
+           "scripts_with_mreq": 0, "followed_by_refused_then_accepted": 0, "followed_by_accepted_then_refused": 0}
+    for c in cases:
+        obs = c.get("obs") or []
+        has = False
+        for i, o in enumerate(c["ops"]):
+            if o["t"] != "mreq" or i >= len(obs):
+                continue
+            has = True
+            mid["mreq_operations"] += 1
+            ts = [e["t"] for e in (obs[i] or [])]
+            if "swap" in ts and "req" in ts and ts.index("swap") < ts.index("req"):
+                mid["met_a_swap_in_progress"] += 1
+                rets = [bool(x.get("ok")) for x in c["ops"][i + 1:] if x["t"] == "ret" and x["s"] == o["s"]][:2]
+                if rets == [False, True]:
+                    mid["followed_by_refused_then_accepted"] += 1
+                elif rets == [True, False]:
+                    mid["followed_by_accepted_then_refused"] += 1
+            else:
+                mid["no_flush_in_progress (nothing waited, worker busy or stopped)"] += 1
+        mid["scripts_with_mreq"] += 1 if has else 0
+    ck.extra.setdefault("input_distribution", {})["request_against_a_swap_in_progress"] = mid
     ck.coverage["evaluations"] += len(cases)
     ck.coverage["distinct_nontrivial"] += len(distinct)
     ck.coverage["rule"] += ("service scripts: 1..3 real insert services (kinds uniformly among the six), maxQueueSize off/within reach/huge, "
-                            "4..14 generated operations (Request 50%, PlanFlush, return of the blocked Do with success 2/3, Stop) followed by a drain; "
+                            "4..14 generated operations (Request 50%, PlanFlush, return of the blocked Do with success 2/3, Stop; one choice in eleven on a single-worker service plays the mid-swap scenario: "
+                            "a request, then `mreq` = PlanFlush + a Request submitted while the fetch loop is blocked inside acquireColumns on the column-pool mutex the harness holds, then the two "
+                            "consecutive INSERTs answered with opposite outcomes) followed by a drain; "
                             "requests of 0, 1, 2..6 or 2000..11000 rows (quick tier: 2000..3500); one script in five draws a third of its requests from the malformed stream "
                             "(a column longer/shorter/empty, empty key column, foreign row, size 0); one in forty has a refused connection. "
                             "non-trivial = at least two requests with rows, a block sent and a Do returned; distinct by content. ")
